@@ -59,7 +59,7 @@ impl RecvRateSet {
             is_initial: false
         });
 
-        self.entries.retain(|e| now_ms - e.timestamp_ms < 2 * rtt_ms);
+        self.entries.retain(|e| now_ms - e.timestamp_ms <= 2 * rtt_ms);
 
         return self.max();
     }
